@@ -96,6 +96,7 @@ from .orientation import sarabandi
 from ..utils.core import _assert_numerical_iterable
 
 def _assert_SO3(array: np.ndarray, R_name: str = 'R'):
+    array = np.asarray(array)       # Also lists of lists are numerical iterables
     if array.shape[-2:] != (3, 3) or array.ndim not in [2, 3]:
         raise ValueError(f"{R_name} must have shape (3, 3) or (N, 3, 3), got {array.shape}.")
     if array.ndim < 3:
